@@ -16,6 +16,7 @@ import Daac.Proofs.LmSem
 import Daac.Proofs.LmAbs
 import Daac.Proofs.LmIter
 import Daac.Proofs.SpecProps
+import Daac.Proofs.Rung2
 namespace Daac.Props.C03
 open Daac
 variable {V : Type} [DecidableEq V]
@@ -88,5 +89,26 @@ theorem spec_no_occurrence_before_first (Ps : List (Pat V)) (hV : ValidPats Ps) 
 theorem spec_no_occurrence_after_last (Ps : List (Pat V)) (hV : ValidPats Ps) (h : List Nat)
     (l₁ : List (Match V)) (a m' : Match V) (hl : specLL Ps h = l₁ ++ [a]) (ho : IsOcc Ps h m') :
     m'.start < a.stop := specLL_no_occ_after_last hV hl ho
+
+
+/-! ### Rung 2 — every pattern collection, every `num_free_blocks`, in the model of the builder
+
+`buildDA` is the model of `build_with_values` (Model/Trie.lean, Model/Nfa.lean, Model/Build.lean),
+tied to the implementation by suite K-build (byte-identical tables). The chain of proofs:
+insertion phase (Proofs/TrieFacts, NfaQueue) → fail links and outputs (Proofs/NfaStd, NfaLm, NfaG)
+→ layout with the ring-buffer helper, BASE uniqueness and CHECK sanitising (Proofs/HelperFacts,
+LayoutB, LayoutC, MapperFacts) → table semantics (Proofs/LayoutSem) → iterators (Rung 1). -/
+
+theorem leftmost_longest_correct_build_bytewise (nfb : Nat) (Ps : List (Pat V)) (hV : ValidPats Ps)
+    (hbytes : ∀ p ∈ Ps, ∀ b ∈ p.key, b < 256) (da : DA V)
+    (hb : buildDA .bytewise ⟨1, nfb⟩ (Ps.map lpOf) = .ok da) (h : List Nat) (hh : ∀ b ∈ h, b < 256) :
+    ∃ l, lmAll da h = .ok (l, 0) ∧ l.map (·.1) = specLL Ps h :=
+  bytewise_leftmost_longest_correct nfb Ps hV hbytes da hb h hh
+
+theorem leftmost_longest_correct_build_charwise (nfb : Nat) (Q : List (List Nat × V)) (hQ : ScalarPats Q)
+    (hQ0 : Q ≠ []) (hnd : (Q.map (·.1)).Nodup) (da : DA V)
+    (hb : buildDA .charwise ⟨1, nfb⟩ (Q.map charPat) = .ok da) (t : List Nat) (ht : Scalars t) :
+    ∃ l, lmAll da (encAll t) = .ok (l, 0) ∧ l.map (·.1) = specLL (Q.map bytePat) (encAll t) :=
+  charwise_leftmost_longest_correct nfb Q hQ hQ0 hnd da hb t ht
 
 end Daac.Props.C03
